@@ -51,7 +51,7 @@ def run_prop(args, prop, repo, reg, timeout_ms, known, seed):
     payload = [(j[0], j[1], args.repo, timeout_ms, kmap) + tuple(j[2:]) for j in jobs]
     payload += [("bounded", n, args.repo, timeout_ms, kmap) for n, f in bounded if args.tier == "thorough" or True]
     if args.jobs > 1 and len(payload) > 1:
-        hard_s = float(os.environ.get("PYVC_HARD_S", "300" if args.tier == "quick" else "1500"))
+        hard_s = float(os.environ.get("PYVC_HARD_S", "150" if args.tier == "quick" else "1500"))
         results = run_jobs(payload, args.jobs, hard_s)
     else:
         results = [M.run_unit(j) for j in payload]
@@ -77,7 +77,7 @@ def run_jobs(payload, njobs, hard_s):
     csize = 1 if len(payload) <= 200 else max(1, len(payload) // (njobs * 8))
     chunks = [list(range(k, min(k + csize, len(payload)))) for k in range(0, len(payload), csize)]
     results = [None] * len(payload)
-    pending, running = list(chunks), {}
+    pending, running, retried = list(chunks), {}, {}
     while pending or running:
         while pending and len(running) < njobs:
             ch = pending.pop(0)
@@ -105,10 +105,14 @@ def run_jobs(payload, njobs, hard_s):
                 pr.kill()
                 pr.join()
                 rc.close()
+                del running[rc]
+                if retried.get(tuple(ch), 0) < 2:
+                    retried[tuple(ch)] = retried.get(tuple(ch), 0) + 1     # a stuck solver call is timing dependent: up to 3 attempts
+                    pending.append(ch)
+                    continue
                 for i in ch:
                     results[i] = dict(kind=payload[i][0], name=payload[i][1], status="undecided", obligations=[],
-                                      message="hard time limit of %ds exceeded (solver ignored its timeout)" % hard_s)
-                del running[rc]
+                                      message="hard time limit of %ds exceeded in 3 attempts (solver ignored its timeout)" % hard_s)
     return results
 
 
@@ -121,6 +125,9 @@ def summarize(args, prop, results, reg, known, kmap, seed, wall, timeout_ms):
     units = []
     bounded_out = []
     clause_status = {}
+    base_path = os.path.join(ROOT, "baseline", "%s.json" % prop)
+    baseline = json.load(open(base_path)) if os.path.exists(base_path) else {}
+    new_base = {}
     for r in results:
         if r["status"] == "crash":
             crashed.append((r["name"], r["message"]))
@@ -160,6 +167,12 @@ def summarize(args, prop, results, reg, known, kmap, seed, wall, timeout_ms):
                               node_kinds=r["node_kinds"], **r["src"]))
             if not r["obligations"]:
                 crashed.append((r["name"], "unit generated zero obligations"))
+        if r["kind"] == "unit":
+            new_base[r["name"]] = dict(fingerprint=r.get("fingerprint"),
+                                       discharged=sorted({o["name"] for o in r["obligations"]} -
+                                                         {o["name"] for o in r["obligations"] if o["verdict"] != "unsat"}))
+        b_unit = baseline.get(r["name"]) if r["kind"] == "unit" else None
+        src_changed = bool(b_unit) and b_unit.get("fingerprint") not in (None, r.get("fingerprint"))
         for ob in r["obligations"]:
             n_ob += 1
             solver_time += ob["time"]
@@ -176,9 +189,22 @@ def summarize(args, prop, results, reg, known, kmap, seed, wall, timeout_ms):
                 cs["sat"].append(ob)
             else:
                 cs["unknown"] += 1
-                undecided.append((ob["name"], "solver returned unknown within %d ms" % timeout_ms))
+                if src_changed and ob["name"] in b_unit.get("discharged", []):
+                    # this obligation was discharged for the recorded (unchanged) source of this function and is not
+                    # discharged for the changed source: a failed obligation without a counter-model
+                    ob2 = dict(ob)
+                    ob2["meta"] = dict(ob["meta"], solver="unknown within %d ms (z3, retried with 2 seeds, then cvc5); "
+                                       "discharged for the baseline source of this unit, whose fingerprint differs" % timeout_ms)
+                    cs.setdefault("failed", []).append(ob2)
+                else:
+                    undecided.append((ob["name"], "solver returned unknown within %d ms" % timeout_ms))
     # classify refuted clauses
     for cname, cs in clause_status.items():
+        if not cs["sat"] and cs.get("failed"):
+            ob = cs["failed"][0]
+            violations.append(dict(name=cname, clause=ob["clause"], unit=cname.rsplit("/", 1)[0], witness=None, harness=None,
+                                   model=None, meta=ob["meta"], smt2=ob.get("smt2"), kind=ob["kind"]))
+            continue
         if not cs["sat"]:
             continue
         kfs = kmap.get(cname, [])
@@ -215,6 +241,9 @@ def summarize(args, prop, results, reg, known, kmap, seed, wall, timeout_ms):
     if getattr(args, "v", False):
         for cname, cs in sorted(clause_status.items()):
             print("   %-90s %d/%d %s" % (cname, cs["unsat"], cs["total"], "PROP" if cs["prop"] else ""))
+    if getattr(args, "write_baseline", False) and rc == 0 and not args.unit and args.repo == "/repo":
+        os.makedirs(os.path.join(ROOT, "baseline"), exist_ok=True)
+        json.dump(new_base, open(base_path, "w"), indent=0, sort_keys=True)
     if not args.unit and args.repo == "/repo":
         write_evidence(args, prop, reg, units, n_ob, n_dis, backend, solver_time, samples, bounded_out,
                        violations, known_hits, undecided, seed, wall, clause_status)
